@@ -167,6 +167,9 @@ func (e *Engine) callStatic(st *St, fn *ssa.Function, args []Value, bind []Value
 			return h(e, st, args, fn)
 		}
 	}
+	if e.Cfg.SkipInitFuncs != nil && strings.HasPrefix(short, "init#") && fn.Pkg != nil && e.Cfg.SkipInitFuncs(fn.Pkg.Pkg.Path()) {
+		return nil
+	}
 	if fn.Blocks == nil {
 		// synthesized wrappers/bound methods are built lazily by go/ssa; external bodies are not available
 		e.unsupported("function without body: " + name)
